@@ -78,8 +78,47 @@ static void probe(vh::Rng & r, ENUConverter & c, const Frame & f, vh::Out & out)
   }
 }
 
+// a converter anchored at a GENERAL latitude / longitude, possibly re-anchored from somewhere else first (history):
+// the relations of C02 measured as residuals in units of 0.01 mm
+static void generic(vh::Rng & r, vh::Out & out)
+{
+  auto u = [&]() {return (double)r.range(-1000000, 1000000) / 1000000.0;};
+  double lat = u() * 85.0 * M_PI / 180.0, lon = u() * M_PI, h = -500 + (u() + 1) * 4750;
+  if (r.coin(1, 8)) {lon = r.coin() ? M_PI : -M_PI;}
+  ENUConverter c;
+  int hist = (int)r.range(0, 3);
+  if (hist == 1) {c.setAnchor(makeGeodeticCoordinates(u() * 1.4, u() * 3.1, 100)); c.toENU(makeGeodeticCoordinates(0.1, 0.2, 3));}
+  if (hist == 2) {c.setAnchor(makeGeodeticCoordinates(u() * 1.4, u() * 3.1, 100)); c.toENU(Eigen::Vector3d(4e6, 1e6, 4e6)); c.reset();}
+  GeodeticCoordinates a = makeGeodeticCoordinates(lat, lon, h);
+  if (hist == 2 || (hist == 0 && r.coin())) {c.toENU(a);} else {c.setAnchor(a);}          // self-anchoring or explicit
+  auto units = [](double metres) {double v = std::fabs(metres) * 1e5; return v < 2e9 ? (long long)std::llround(v) : 2000000000LL;};
+  Eigen::Vector3d o = c.toENU(a);
+  double hh = (double)r.range(1, 9000);
+  Eigen::Vector3d up = c.toENU(makeGeodeticCoordinates(lat, lon, h + hh)) - Eigen::Vector3d(0, 0, hh);
+  // orientation: a point 1e-5 rad further east (north) has a positive first (second) coordinate, the other one comparatively small
+  double de = lon + 1e-5 <= M_PI ? 1e-5 : -1e-5;                                    // stay inside [-pi, pi]
+  Eigen::Vector3d e = c.toENU(makeGeodeticCoordinates(lat, lon + de, h)), n = c.toENU(makeGeodeticCoordinates(lat + 1e-5, lon, h));
+  if (de < 0) {e = -e;}
+  bool eastOK = e[0] > 1 && std::fabs(e[1]) < 0.01 * e[0] + 1e-3, northOK = n[1] > 30 && std::fabs(n[0]) < 0.01 * n[1] + 1e-3;
+  // isometry and inverses on random local points within 100 km / 10 km
+  double iso = 0, invE = 0, invG = 0;
+  for (int k = 0; k < 4; ++k) {
+    Eigen::Vector3d p(u() * 1e5, u() * 1e5, u() * 1e4), q(u() * 1e5, u() * 1e5, u() * 1e4);
+    iso = std::max(iso, std::fabs((c.toECEF(p) - c.toECEF(q)).norm() - (p - q).norm()));
+    invE = std::max(invE, (c.toENU(c.toECEF(p)) - p).norm());
+    invG = std::max(invG, (c.toENU(c.toWGS84(p)) - p).norm());
+  }
+  const Eigen::Affine3d & T = c.getEnuToEcefTransform();
+  Eigen::Matrix3d R = T.linear();
+  bool proper = (R * R.transpose() - Eigen::Matrix3d::Identity()).norm() < 1e-9 && std::fabs(R.determinant() - 1) < 1e-9;
+  out.put(vh::Ev("generic").i("hist", hist).i("originRes", units(o.norm())).i("upRes", units(up.norm())).i("isoRes", units(iso))
+    .i("invEcefRes", units(invE)).i("invGeoRes", units(invG)).b("eastOK", eastOK).b("northOK", northOK).b("properOK", proper)
+    .i("latMicroDeg", (long long)std::llround(lat * 180 / M_PI * 1e6)).i("lonMicroDeg", (long long)std::llround(lon * 180 / M_PI * 1e6)));
+}
+
 static void exec(vh::Rng & r, vh::Out & out)
 {
+  if (r.coin(1, 3)) {out.put(vh::Ev("Reset").b("anchor", false).b("anch", false)); generic(r, out); return;}
   std::unique_ptr<ENUConverter> c;
   Frame f{};
   bool anchored = false;
